@@ -38,7 +38,7 @@ type MemoryCache[MetadataT any] struct {
 	entries      map[CacheKey]*memoryInternalEntry[MetadataT]
 	mu           sync.RWMutex
 	locks        []sync.RWMutex
-	memoryCap    int64
+	memoryCap    atomics.Int64
 	maxCacheSize atomics.Int64
 	byteSize     atomics.Int64
 
@@ -55,7 +55,7 @@ func NewMemoryCache[MetadataT any](cfg *config.Config, memoryBudgetPercent int, 
 	c := &MemoryCache[MetadataT]{
 		entries:      make(map[CacheKey]*memoryInternalEntry[MetadataT]),
 		locks:        make([]sync.RWMutex, shardCount),
-		memoryCap:    int64(sysMem.Total) * int64(memoryBudgetPercent) / 100,
+		memoryCap:    atomics.NewInt64(int64(sysMem.Total) * int64(memoryBudgetPercent) / 100),
 		maxCacheSize: atomics.NewInt64(maxCacheSize),
 		byteSize:     atomics.NewInt64(0),
 	}
@@ -65,10 +65,8 @@ func NewMemoryCache[MetadataT any](cfg *config.Config, memoryBudgetPercent int, 
 	}))
 
 	c.subs.Add(cfg.Cache.Memory.MemoryBudgetPercent.OnChange(func(newPercent int) {
-		c.mu.Lock()
-		defer c.mu.Unlock()
-		c.memoryCap = int64(sysMem.Total) * int64(newPercent) / 100
-		slog.Info("Memory budget changed", "new_percent", newPercent, "new_cap", bytesize.ByteSize(c.memoryCap))
+		c.memoryCap.Set(int64(sysMem.Total) * int64(newPercent) / 100)
+		slog.Info("Memory budget changed", "new_percent", newPercent, "new_cap", bytesize.ByteSize(c.memoryCap.Get()))
 	}))
 
 	c.janitor = newCacheJanitor(cfg, cleanupInterval, cacheFunctions[MetadataT]{
@@ -139,16 +137,18 @@ func (c *MemoryCache[MetadataT]) Get(key CacheKey) (*Entry[MetadataT], error) {
 	entry.meta.LastAccess = time.Now()
 	metrics.Global.Cache.CacheHits.Increment()
 
+	// The caller gets a snapshot: the stored metadata keeps changing under the shard lock
+	metaCopy := *entry.meta
 	return &Entry[MetadataT]{
 		Data:     &memoryReadSeekCloser{bytes.NewReader(entry.data)},
-		Metadata: entry.meta,
+		Metadata: &metaCopy,
 		Stale:    stale,
 	}, nil
 }
 
 func (c *MemoryCache[MetadataT]) cacheInternal(key CacheKey, data io.Reader, expires time.Time, metadata MetadataT, evictIfFull bool) (*Entry[MetadataT], error) {
 	maxCacheSize := c.maxCacheSize.Get()
-	limit := min(maxCacheSize, c.memoryCap)
+	limit := min(maxCacheSize, c.memoryCap.Get())
 
 	if c.byteSize.Get() >= limit {
 		if evictIfFull {
@@ -198,9 +198,10 @@ func (c *MemoryCache[MetadataT]) cacheInternal(key CacheKey, data io.Reader, exp
 	incrementCacheEntries()
 	addCacheSize(&c.byteSize, int64(count))
 
+	metaCopy := *meta
 	return &Entry[MetadataT]{
 		Data:     &memoryReadSeekCloser{bytes.NewReader(dataBytes)},
-		Metadata: meta,
+		Metadata: &metaCopy,
 	}, nil
 }
 
@@ -279,5 +280,6 @@ func (c *MemoryCache[MetadataT]) GetMetadata(key CacheKey) (meta *EntryMetadata[
 	entry.meta.LastAccess = time.Now()
 	metrics.Global.Cache.CacheHits.Increment()
 
-	return entry.meta, stale, nil
+	metaCopy := *entry.meta
+	return &metaCopy, stale, nil
 }
